@@ -498,6 +498,38 @@ func VerifSelf_RaceFree() {
 	verifReach("end")
 }
 
+// VerifSelf_Atomics: atomic.Value publication, atomic.Int64 methods, CompareAndSwap as a lock.
+func VerifSelf_Atomics() {
+	var cfg atomic.Value
+	var n atomic.Int64
+	var flag int32
+	payload := 0
+	var wg sync.WaitGroup
+	wg.Add(2)
+	go func() {
+		defer wg.Done()
+		payload = 7 // published by the Store below
+		cfg.Store([]int{1, 2, 3})
+		n.Add(2)
+	}()
+	go func() {
+		defer wg.Done()
+		if v, ok := cfg.Load().([]int); ok {
+			verifAssert(len(v) == 3 && payload == 7, "published-before-store")
+		}
+		if atomic.CompareAndSwapInt32(&flag, 0, 1) {
+			n.Add(1)
+			atomic.StoreInt32(&flag, 0)
+		}
+	}()
+	wg.Wait()
+	verifAssert(n.Load() == 3, "atomic-counter")
+	old := cfg.Swap([]int{9})
+	verifAssert(len(old.([]int)) == 3, "swap-returns-old")
+	verifObserve("atomics", n.Load(), payload)
+	verifReach("end")
+}
+
 // VerifSelf_Cond: a one-slot mailbox guarded by sync.Cond; two producers, one consumer.
 func VerifSelf_Cond() {
 	var mu sync.Mutex
